@@ -244,4 +244,46 @@ def outerCall (shared outerThree : Bool) (n : Nat) (k : Nat) (nestedThree : Bool
     (v : Nat × Nat → Bool) (w : World) : Result × World :=
   checkW outerThree (askVia shared 0 n v (hookAt shared k nestedThree n' v)) n w
 
+/-! ### the constrained validator against an `Ask` (the traversal's questions may be interleaved with other calls too) -/
+
+/-- `traverse` against an `Ask`. -/
+def traverseW (ask : Ask) (m : Nat) (geom : Bool) (w : World) : (Bool × List Nat × Nat) × World :=
+  match (linScanW ask 1 m w).1.2 with
+  | some j => ((false, (linScanW ask 1 m w).1.1, j - 1), (linScanW ask 1 m w).2)
+  | none => ((geom, (linScanW ask 1 m w).1.1, m), (linScanW ask 1 m w).2)
+
+/-- `traverseG` against an `Ask`. -/
+def traverseGW (ask : Ask) (mode : TMode) (m : Nat) (geom : Bool) (w : World) :
+    (Bool × List Nat × Nat × Bool) × World :=
+  let go (q : List Nat) (w : World) : (Bool × List Nat × Nat × Bool) × World :=
+    (((traverseW ask m geom w).1.1, q ++ (traverseW ask m geom w).1.2.1, (traverseW ask m geom w).1.2.2, false),
+      (traverseW ask m geom w).2)
+  match mode with
+  | .proj => go [] w
+  | .atlas => if !(ask 0 w).1 then ((false, [0], 0, true), (ask 0 w).2) else go [0] (ask 0 w).2
+  | .tb =>
+    if m == 0 && geom then go [] w
+    else if !(ask 0 w).1 then ((false, [0], 0, false), (ask 0 w).2) else go [0] (ask 0 w).2
+
+/-- `constrained2G` against an `Ask`. -/
+def constrained2GW (ask : Ask) (mode : TMode) (sat : Bool) (m : Nat) (geom : Bool) (w : World) : CResult × World :=
+  if !(ask (m + 1) w).1 then (⟨false, none, false, [m + 1], 0, 1⟩, (ask (m + 1) w).2.bump 0 1)
+  else if !sat then (⟨false, none, false, [m + 1], 0, 1⟩, (ask (m + 1) w).2.bump 0 1)
+  else if (traverseGW ask mode m geom (ask (m + 1) w).2).1.1 then
+    (⟨true, none, false, (m + 1) :: (traverseGW ask mode m geom (ask (m + 1) w).2).1.2.1, 1, 0⟩,
+      (traverseGW ask mode m geom (ask (m + 1) w).2).2.bump 1 0)
+  else (⟨false, none, false, (m + 1) :: (traverseGW ask mode m geom (ask (m + 1) w).2).1.2.1, 0, 1⟩,
+      (traverseGW ask mode m geom (ask (m + 1) w).2).2.bump 0 1)
+
+/-- `constrained3G` against an `Ask`. -/
+def constrained3GW (ask : Ask) (mode : TMode) (hasFirst sat : Bool) (m : Nat) (geom : Bool) (w : World) :
+    CResult × World :=
+  let t := traverseGW ask mode m geom w
+  if t.1.2.2.2 then (⟨false, if hasFirst then some 0 else none, true, t.1.2.1, 0, 1⟩, t.2.bump 0 1)
+  else if t.1.1 && sat then
+    if (ask (m + 1) t.2).1 then (⟨true, none, false, t.1.2.1 ++ [m + 1], 1, 0⟩, (ask (m + 1) t.2).2.bump 1 0)
+    else (⟨false, if hasFirst then some t.1.2.2.1 else none, true, t.1.2.1 ++ [m + 1], 0, 1⟩,
+      (ask (m + 1) t.2).2.bump 0 1)
+  else (⟨false, if hasFirst then some t.1.2.2.1 else none, true, t.1.2.1, 0, 1⟩, t.2.bump 0 1)
+
 end OmplModel.Motion
